@@ -1,5 +1,6 @@
 import OSProofs.Props.C20
 import OSProofs.Props.C20b
+import OSProofs.Props.C20c
 #print axioms OS.C20_rating_given
 #print axioms OS.C20_rating_defaults
 #print axioms OS.C20_create_rating
@@ -18,3 +19,18 @@ import OSProofs.Props.C20b
 #print axioms OS.C20_rateCore_values_of_eq
 #print axioms OS.C20_rate_rebuilt
 #print axioms OS.C20_rate_setIds
+#print axioms OS.storeBack_not_mem
+#print axioms OS.storeBack_mem
+#print axioms OS.storeBackPos_eq_storeBack
+#print axioms OS.playGame_untouched
+#print axioms OS.playGame_stored
+#print axioms OS.C20_playGame_of_values_ids
+#print axioms OS.C20_rate_load_reid
+#print axioms OS.C20_playGamePos_eq_playGame
+#print axioms OS.C20_playGamePos_rebuilt
+#print axioms OS.C20_playGamePos_reid
+#print axioms OS.C20_playGame_rebuild
+#print axioms OS.C20_league_rebuild_general
+#print axioms OS.C20_league_rebuild
+#print axioms OS.C20_league_rebuild_prefix
+#print axioms OS.C20_league_rebuild_fresh
